@@ -46,7 +46,7 @@ var c07Features = [][]string{
 	{"", "match-case", "~match-case"},                                            // 5
 	{"", "dnstype=A", "dnstype=~A"},                                              // 6
 	{"", "ctag=pc", "ctag=~pc"},                                                  // 7
-	{"", "client=10.0.0.1", "client=~10.0.0.1"},                                  // 8
+	{"", "client=10.0.0.1", "client=~10.0.0.1", "client='living/room'"},          // 8
 	{"", "denyallow=x.com"},                                                      // 9
 	{"", "redirect=noopjs"},                                                      // 10: rejected by the parser today; structural axioms apply as soon as it parses
 }
